@@ -497,7 +497,9 @@ def report(chk, own, lives, events, where, viol, texts):
         if OWNER[prop] == own:
             chk.violation(key, what, pay)
         else:
-            chk.note(f"(belongs to {OWNER[prop]}) {what}")
+            chk.add(rejections_belonging_to_other_property=1)
+            if chk.cov.get("rejections_belonging_to_other_property", 0) <= 3:
+                chk.note(f"(belongs to {OWNER[prop]}) {what[:260]}")
 
 
 def trace_controls(chk, own, events):
@@ -606,9 +608,9 @@ def run_c12(chk):
     seeds = seeds_for(chk, 1 if quick else 4)
     # design level ------------------------------------------------------------------------------------------
     base = consts(Sig=["s1", "s2"], Opt=["o1", "o2"], MaxEvents=5 if quick else 6)
-    jobs = [lambda: design_must_hold(chk, "c12-design", base, coverage=not quick)]
-    if quick:       # vacuity (every action taken) on a shallower copy: -coverage is slow
-        jobs.append(lambda: design_must_hold(chk, "c12-vacuity", dict(base, MaxEvents=3), coverage=True))
+    # vacuity (every action taken) is measured on a shallower copy: -coverage is slow
+    jobs = [lambda: design_must_hold(chk, "c12-design", base),
+            lambda: design_must_hold(chk, "c12-vacuity", dict(base, Opt=["o1"], MaxEvents=3), coverage=True)]
     for leak in ("seed", "counter", "cache"):
         jobs.append(lambda leak=leak: control_must_fail(chk, f"c12-leak-{leak}", dict(base, Leak=leak), "Functional"))
     # spec -> code: histories -------------------------------------------------------------------------------
@@ -639,9 +641,9 @@ def run_c12(chk):
              and gen0(x["events"][1], "default")]
     must += [x for x in cand if len(x["events"]) == 1 and x["seed"] == 0 and x["events"][0]["act"] == "Generate"
              and x["events"][0]["route"] == 9 and x["events"][0]["opt"] == "default"]
-    lives, seen, spent = select(cand, 55 if quick else 1500, must)
+    lives, seen, spent = select(cand, 55 if quick else 1200, must)
     chk.add(context_items_covered=len(seen))
-    lives, events, where, viol = execute_and_judge(chk, "C12", lives, 24 if quick else 300, "c12")
+    lives, events, where, viol = execute_and_judge(chk, "C12", lives, 24 if quick else 200, "c12")
     _evidence(chk, lives, events, "Generate")
     chk.assumptions += [
         "processes share nothing but the registries (no cache directory, no option files), so events of distinct "
@@ -695,12 +697,12 @@ def c13_axes(quick):
 def run_c13(chk):
     quick = chk.tier == "quick"
     seeds = seeds_for(chk, 1 if quick else 4)
-    base = consts(Sig=["s1"], Route=[0] if quick else [0, 1], Opt=["o1"] if quick else ["o1", "o2"], Vis=["v1", "v2"],
+    base = consts(Sig=["s1"], Route=[0] if quick else [0, 1], Opt=["o1"], Vis=["v1", "v2"],
                   Hid=["h1", "h2"], Flag=["f1"] if quick else ["f1", "f2"], MaxObjs=2, MaxEvents=4)
     small = dict(base, Opt=["o1"], Flag=["f1"], Route=[0], MaxEvents=4)
     jobs0 = ([
-        lambda: design_must_hold(chk, "c13-design", base, coverage=not quick),
-        lambda: design_must_hold(chk, "c13-vacuity", dict(base, MaxEvents=3), coverage=True),
+        lambda: design_must_hold(chk, "c13-design", base),
+        lambda: design_must_hold(chk, "c13-vacuity", dict(small, MaxEvents=3), coverage=True),
         lambda: control_must_fail(chk, "c13-lossy", dict(small, Lossy=True), "Separating"),
         lambda: control_must_fail(chk, "c13-droppos", dict(small, DropPos=True), "DistinctObjects"),
         lambda: control_must_fail(chk, "c13-leak-seed", dict(small, Leak="seed"), "Stable"),
@@ -722,12 +724,12 @@ def run_c13(chk):
     chk.add(transitions=sum(r.generated for _, r in res), states=sum(r.distinct for _, r in res[0::2]),
             requests_in_algebra=len(recipes), histories_simulated=sum(len(h) for h, _ in res[1::2]),
             candidate_lives=len(enum) + len(sim))
-    lives, seen, spent = select(enum + sim, 60 if quick else 1800)
+    lives, seen, spent = select(enum + sim, 60 if quick else 600)
     # every request of the algebra is made at least once
     have = {sub[1] for x in lives for _, sub, _ in contexts(x) if sub[0] == "N"}
     lives += [single[k] for k in sorted(recipes - have)]
     chk.add(context_items_covered=len(seen), requests_only_made_alone=len(recipes - have))
-    lives, events, where, viol = execute_and_judge(chk, "C13", lives, 24 if quick else 250, "c13")
+    lives, events, where, viol = execute_and_judge(chk, "C13", lives, 24 if quick else 150, "c13")
     _evidence(chk, lives, events, "Name")
     classes = {e["klass"] for e in events if e.get("hasclass")}
     mods = {e["modname"] for e in events if e["act"] == "Name"}
